@@ -1246,6 +1246,44 @@ def fam_round9(rng):
             ws = rng.sample(TRAIT_WHERE, rng.choice([2, 3]))
             out.append(Case("round9", rng.choice(["", "delegate_by = ref", "FooImpl, delegate_by = Deleg"]),
                             "trait Scan<'a, P, F>: Sized where %s%s { fn scan(&self, p: &'a P, f: F); async fn later(&self); }" % (", ".join(ws), rng.choice(["", ","]))))
+    # after round 10: raw (keyword) identifiers as parameter names of trait methods, and attributes on trait methods (cfg, doc,
+    # lint levels, several at once) - under every delegation kind, the delegation-target trait included
+    DELEG = ("", "delegate_by = ref", "delegate_by = Borrow", "FooImpl, delegate_by = Deleg", "FooImpl, delegate_by = ref", "?Send", "mock_api = M, unimock")
+    for attr in DELEG:
+        out.append(Case("round9", attr, "pub trait Sc { fn scale(&self, r#type: i32, r#in: i32, plain: i32) -> i32; fn off(&self, r#plain: i32, r#match: u8); }"))
+        out.append(Case("round9", attr, "trait Sc { async fn scale(&self, r#type: i32, r#fn: i32) -> i32; fn r#loop(&self, r#self_: i32); }"))
+        for ma in ("#[cfg(any())]", "#[cfg(all())]", "#[cfg(not(any()))] #[doc = \"d\"]", "#[doc = \"d\"]", "/** docs */", "#[allow(unused)]", "#[deprecated]", "#[cfg(test)] #[allow(unused)] #[cfg(any())]",
+                   "#[must_use]", "#[inline]"):
+            out.append(Case("round9", attr, "pub trait Sc { %s fn gone(&self) -> Missing; fn kept(&self, a: i32) -> i32; %s async fn last(&self); }" % (ma, ma)))
+    return out
+
+
+# after round 10 (a cache keyed by names, shared by the invocations of one compiler process): invocations that share every name -
+# trait, methods, functions, the *set* of parameter names - and differ in parameter order, types, asyncness or return type.
+# harness/corpus.py puts the whole family into ONE crate, so one proc-macro instance expands all of them (and C20's re-runs expand
+# them in another order)
+def fam_same_process(rng):
+    import itertools
+    out = []
+    ps = [("a", "i32"), ("b", "i32"), ("c", "u8")]
+    for perm in itertools.permutations(ps):
+        plist = ", ".join("%s: %s" % p for p in perm)
+        for attr in ("", "delegate_by = ref", "FooImpl, delegate_by = Deleg", "FooImpl, delegate_by = ref", "mock_api = M, unimock"):
+            out.append(Case("same_process", attr, "pub trait Ledger { fn m(&self, %s) -> i32; fn n(&self, %s); }" % (plist, plist)))
+        out.append(Case("same_process", "pub Ledger", "pub fn m(deps: &impl A, %s) -> i32 { 0 }" % plist))
+        out.append(Case("same_process", "pub Ledger, no_deps", "pub fn m(%s) -> i32 { 0 }" % plist))
+        out.append(Case("same_process", "pub Ledger", "pub mod ledger { pub fn m(deps: &impl A, %s) -> i32 { 0 } pub fn n<D>(deps: &D, %s) {} }" % (plist, plist)))
+        out.append(Case("same_process", rng.choice(["", "ref"]), "impl FooImpl for MyType { pub fn m<D>(deps: &D, %s) -> i32 { 0 } }" % plist))
+    for sig in ("fn m(&self, a: i32) -> i32;", "async fn m(&self, a: i32) -> i32;", "fn m(&self, a: u8) -> u8;", "fn m(&self, a: i32);", "fn m(self, a: i32) -> i32;",
+                "fn m<'x>(&'x self, a: &'x i32) -> &'x i32;", "fn m(&self, (a, _): (i32, i32)) -> i32;"):
+        for attr in ("", "delegate_by = ref", "FooImpl, delegate_by = Deleg"):
+            out.append(Case("same_process", attr, "pub trait Ledger { %s }" % sig))
+    for attr in ("pub Ledger", "pub Ledger, no_deps", "pub Ledger, mock_api = M, unimock", "pub(crate) Ledger, ?Send", "Ledger, export"):
+        for f in ("pub fn m(deps: &impl A, a: i32) -> i32 { a }", "pub async fn m(deps: &impl A, a: i32) -> i32 { a }", "fn m<D: A + B>(deps: &D, a: i32) -> i32 { a }", "fn m(deps: &App, a: i32) {}"):
+            if "no_deps" in attr:
+                f = f.replace("deps: &impl A, ", "").replace("deps: &D, ", "").replace("deps: &App, ", "")
+            out.append(Case("same_process", attr, f))
+    rng.shuffle(out)
     return out
 
 
@@ -1283,6 +1321,7 @@ def build_corpus(seed, tier):
     cases += fam_deps_mock(rng)
     cases += fam_round8(rng)
     cases += fam_round9(rng)
+    cases += fam_same_process(rng)
     for i, c in enumerate(cases):
         c.cid = i
     return cases
